@@ -186,6 +186,54 @@ def run(ctx):
     ctx.ob('R04.8', 'label map kinds == pool label-resolved kinds', label_kinds == pool_kinds,
            f'ResourceLabelMap::new creates entries for kinds {sorted(label_kinds)}; ResourcePool::new resolves indices through the label map for kinds {sorted(pool_kinds)} (a kind relabelled on one side only tells a task values it does not hold)', ln.loc(lw[0]))
 
+    # ---- R04.9 a fraction is granted once
+    ctx.rule('R04.9', 'a fractional remainder is granted once: after a fraction was handed out (AllocationIndex with a non-constant `fractions`, or try_take_fraction() == true) the outstanding fraction is set to zero before the next group is visited')
+    AIDX = 'tako::internal::common::resources::allocation::AllocationIndex'
+    AIDX = AIDX if prog.adts.get(AIDX) else next((a for a in prog.adts if a.endswith('::AllocationIndex')), AIDX)
+    n9 = 0
+    for fn in ('claim_scatter_from_groups', 'claim_compact_from_groups'):
+        fb_ = prog.body(POOLP + fn)
+        def zero_assigns(locals_):
+            out = []
+            for bi in fb_.reachable():
+                for st in fb_.stmts(bi):
+                    if st['k'] == 'a' and st['p'][1] == [] and st['p'][0] in locals_ and st['rv'][0] == 'use' and op_const(st['rv'][1]) is not None and str(op_const(st['rv'][1])).replace('const ', '').startswith('0_'):
+                        out.append(bi)
+            return out
+        # (a) direct grants: AllocationIndex { fractions: <variable> }
+        for o_, b_, bi, st in construct_sites(prog, AIDX):
+            if b_.path != fb_.path:
+                continue
+            names = st['rv'][1][3]
+            op_ = st['rv'][2][names.index('fractions')]
+            l_ = op_local(op_)
+            if l_ is None:
+                continue     # constant 0: a whole index
+            srcv = {x for x in fb_.derived_from(l_, through_mutation=False) if fb_.locals[x][0] == 'u32'}
+            hs = loop_headers_containing(fb_, bi)
+            za = zero_assigns(srcv)
+            n9 += 1
+            ok9, _w = must_pass(fb_, [bi], za, exits=hs[:1] + list(fb_.returns())) if hs else (True, None)
+            ctx.ob('R04.9', f'{fn}|fraction handed out -> outstanding fraction zeroed', bool(za) and ok9,
+                   'after an index with a fraction was pushed the outstanding fraction is set to 0 before the loop continues (otherwise the next group grants the fraction again from a second index)', fb_.loc(bi, st))
+        # (b) grants through try_take_fraction
+        tfb = fb_.call_blocks(POOLP + 'try_take_fraction')
+        if tfb:
+            edges_t, _c = guard_edges(fb_, POOLP + 'try_take_fraction', True)
+            for cb_ in tfb:
+                fl_ = op_local(fb_.term[cb_]['args'][1])
+                srcv = {x for x in fb_.derived_from(fl_, through_mutation=False) if fb_.locals[x][0] == 'u32'} if fl_ is not None else set()
+                za = zero_assigns(srcv)
+                hs = loop_headers_containing(fb_, cb_)
+                n9 += 1
+                ok9 = bool(za) and bool(edges_t) and all(must_pass(fb_, [tgt], za, exits=hs[:1] + list(fb_.returns()))[0] or tgt in za for sb, tgt in edges_t)
+                # the zeroed variable is the one the remaining amount is rebuilt from
+                ra_new = [x for x in fb_.call_blocks(lambda c: c.endswith('ResourceAmount::new')) if x in fb_.reach_after(cb_)]
+                feeds = any(srcv & fb_.derived_from(op_local(a), through_mutation=False) for x in ra_new for a in fb_.term[x]['args'] if op_local(a) is not None)
+                ctx.ob('R04.9', f'{fn}|try_take_fraction succeeded -> outstanding fraction zeroed', ok9 and feeds,
+                       'on the true edge of try_take_fraction the fraction variable is set to 0 and the remaining amount is rebuilt from it', fb_.loc(cb_))
+    ctx.floor('R04.9', n9, 3, 'fraction grant sites in the group claim functions')
+
     # ---- R04.4
     lt = ts.call_blocks(REACT + 'launch_task')
     ctx.require(lt, 'R04.4: launch_task call')
